@@ -90,6 +90,20 @@ func scnRestartFollower(name string, k kfn, first Item) *Scenario {
 	return s
 }
 
+// S-restart-late: A leads, is stopped without deleting its key and started again shortly
+// before its old record expires (the first heartbeat of the new run comes after the
+// expiry); B present.
+func scnRestartLate(name string, k kfn, first Item) *Scenario {
+	s := k(&Scenario{Name: name})
+	s.Insts = insts("A", "B")
+	s.Script = starts("A", "B")
+	first.At, first.Actor, first.Inst = 1*s.H+31*ms, "lifeA", "A"
+	tExp := 1*ms + s.H + s.TTL // last refresh at 1ms+H
+	s.Script = append(s.Script, first, Item{At: tExp - 50*ms, Actor: "lifeA", Do: "start", Inst: "A"})
+	s.Horizon = tExp + 1500*ms
+	return s.faultFree()
+}
+
 var stopVariants = []Item{
 	{Do: "stop"},
 	{Do: "stopctx"},
@@ -150,6 +164,8 @@ func c02Plan(tier string) []PlanItem {
 		items = append(items, PlanItem{scnRestart("restart/"+stopName(sv)+"-K1", K1, sv), d})
 	}
 	items = append(items,
+		PlanItem{scnRestartLate("restart-late/stop-K1", K1, Item{Do: "stop"}), d},
+		PlanItem{scnRestartLate("restart-late/stopctx-K1", K1, Item{Do: "stopctx"}), d},
 		PlanItem{scnRestartFollower("restart-follower/stop-K1", K1, Item{Do: "stop"}), d + 1},
 		PlanItem{scnRestart2("restart2/stop-then-stopdel-K1", K1, Item{Do: "stop"}), d},
 		PlanItem{scnRestart2("restart2/stopctx-then-stopdel-K1", K1, Item{Do: "stopctx"}), d},
